@@ -158,21 +158,29 @@ def r9_source_parsed_verbatim(ctx):
     parses = [x for x in ast.walk(rc.node) if isinstance(x, ast.Call) and call_name(x) in ("ast.parse", "parse")]
     ctx.require(parses, f"{rc.key}: no ast.parse call")
 
-    def transforms(x, acc):
+    def transforms(x, acc, fnode=None, depth=0):
+        fnode = fnode or rc.node
         if isinstance(x, ast.Call):
             cn = call_name(x) or ""
+            helper = ctx.repo.resolve_name(rc.module, cn) if cn and "." not in cn else None
+            if helper and helper[0] == "func" and depth < 3:
+                # a helper of the package that fetches the source: what it returns is what counts
+                for r in ast.walk(helper[1].node):
+                    if isinstance(r, ast.Return) and r.value is not None:
+                        transforms(r.value, acc, helper[1].node, depth + 1)
+                return acc
             if cn not in ("inspect.getsource", "getsource"):
                 acc.append(x)
             for a in x.args:
-                transforms(a, acc)
+                transforms(a, acc, fnode, depth)
             if isinstance(x.func, ast.Attribute):
-                transforms(x.func.value, acc)
+                transforms(x.func.value, acc, fnode, depth)
         elif isinstance(x, ast.BinOp):
-            transforms(x.left, acc)
-            transforms(x.right, acc)
+            transforms(x.left, acc, fnode, depth)
+            transforms(x.right, acc, fnode, depth)
         elif isinstance(x, ast.Name):
-            for v in [s.value for s in all_stmts(rc.node) if isinstance(s, ast.Assign) and any(dotted(t) == x.id for t in s.targets)]:
-                transforms(v, acc)
+            for v in [s.value for s in all_stmts(fnode) if isinstance(s, ast.Assign) and any(dotted(t) == x.id for t in s.targets)]:
+                transforms(v, acc, fnode, depth)
         return acc
 
     for pc in parses:
